@@ -561,9 +561,11 @@ func (conn *Tunnel) serve() {
 	util.Log(conn, "Started worker")
 	defer util.Log(conn, "Worker exited")
 
+	// Deferred calls run in reverse order: the wait group is released last, so that Close does not
+	// return before the channels have been closed.
+	defer conn.wait.Done()
 	defer close(conn.ack)
 	defer close(conn.inbound)
-	defer conn.wait.Done()
 
 	for {
 		err := conn.process()
